@@ -82,6 +82,14 @@ class C01:
                     r = ex.check_trace(st, prop)
                     if r is not None and r[2] >= 2:
                         inter.append((r[0], r[1]))
+                elif st.exc is None:
+                    # schedule accounting only (the trace oracle itself is C02's business)
+                    try:
+                        r = ex.check_trace(st, prop)
+                        if r is not None and r[2] >= 2:
+                            inter.append((r[0], r[1]))
+                    except Violation:
+                        pass
                 if not check_contents:
                     # other properties' business (C01 / KF-1): do not continue on a diverged state
                     try:
@@ -357,6 +365,7 @@ class C18:
                         where = "op %d (%s %s) with fault %s#%d" % (ci, op[0], path_str(op[1]), kind, k)
                         fst = sub.step(op, fault={"kind": kind, "n": k, "fired": False, "tag": k})
                         nfaults += 1
+                        count("events", len(fst.trace) if fst is not None else 0)
                         count("fault:%s_raises" % {"w": "write", "r": "read", "act": "action"}[kind])
                         C18._check_faulted(sub, fst, W, pos[k], kind, before, strict, where, has_knob)
                         # optionally a second faulty attempt in a row
@@ -553,6 +562,7 @@ class C17:
                     mgr.unfreeze_tree()
                     count("stray_unfreeze_before_freeze")
                 mgr.freeze_tree()
+                count("fault:freeze")
                 if variant in (2, 3):
                     mgr.freeze_tree()
                     count("double_freeze")
